@@ -4,6 +4,7 @@ import (
 	"fmt"
 	"go/types"
 	"sort"
+	"sync"
 
 	"golang.org/x/tools/go/ssa"
 )
@@ -112,15 +113,23 @@ type Block struct {
 	Name  string
 	// written after init? (for C19 footprints)
 	Gen int64
+	MaxCell int64
 }
 
 var sizes = types.SizesFor("gc", "amd64")
 
 func sizeof(t types.Type) int64 {
-	if isReflectValue(t) {
-		return 24
+	if v, ok := sizeCache.Load(t); ok {
+		return v.(int64)
 	}
-	return sizes.Sizeof(t)
+	var n int64
+	if isReflectValue(t) {
+		n = 24
+	} else {
+		n = sizes.Sizeof(t)
+	}
+	sizeCache.Store(t, n)
+	return n
 }
 
 func isReflectValue(t types.Type) bool {
@@ -228,7 +237,10 @@ func (st *State) readBytes(b *Block, off, n int64) *Term {
 }
 
 func (st *State) readByte(b *Block, off int64) *Term {
-	for d := int64(0); d < 24; d++ {
+	if len(b.Cells) == 0 {
+		return C(8, 0)
+	}
+	for d := int64(0); d < b.MaxCell; d++ {
 		c, ok := b.Cells[off-d]
 		if !ok {
 			continue
@@ -242,8 +254,14 @@ func (st *State) readByte(b *Block, off int64) *Term {
 				return BoolToBV(v, 8)
 			}
 			return Extract(v, uint8(8*d+7), uint8(8*d))
+		case Ptr:
+			// byte view of a pointer: only its nil-ness is meaningful
+			if v.Blk == 0 {
+				return C(8, 0)
+			}
+			return C(8, 0xff)
 		default:
-			st.memViolation(fmt.Sprintf("byte-wise read cuts through a pointer/opaque cell at block %d offset %d", 0, off))
+			st.memViolation(fmt.Sprintf("byte-wise read cuts through an opaque cell at offset %d", off))
 			return C(8, 0)
 		}
 	}
@@ -292,6 +310,9 @@ func (st *State) clearRange(b *Block, off, n int64) {
 			by := Extract(t, uint8(8*i+7), uint8(8*i))
 			if !(by.Op == OConst && by.K == 0) {
 				b.Cells[o+i] = Cell{1, by}
+				if b.MaxCell < 1 {
+					b.MaxCell = 1
+				}
 			}
 		}
 	}
@@ -327,6 +348,9 @@ func (st *State) setCell(b *Block, off, size int64, v Value) {
 		b.Cells = map[int64]Cell{}
 	}
 	b.Cells[off] = Cell{size, v}
+	if size > b.MaxCell {
+		b.MaxCell = size
+	}
 }
 
 // Load reads a value of type t at p.
@@ -372,7 +396,7 @@ func (st *State) loadAt(b *Block, off int64, t types.Type) Value {
 			by := st.readBytes(b, off, 1)
 			return Not(Eq(by, C(8, 0)))
 		default:
-			n := sizes.Sizeof(t)
+			n := sizeof(t)
 			return st.readBytes(b, off, n)
 		}
 	case *types.Pointer:
@@ -457,16 +481,14 @@ func (st *State) mustConst(t *Term) int64 {
 	return int64(t.K)
 }
 
-var offCache = map[*types.Struct][]int64{}
-var offMu = newRW()
+var offCache sync.Map // *types.Struct -> []int64
+var sizeCache sync.Map // types.Type -> int64
 
 func fieldOffsets(s *types.Struct) []int64 {
-	offMu.RLock()
-	o, ok := offCache[s]
-	offMu.RUnlock()
-	if ok {
-		return o
+	if o, ok := offCache.Load(s); ok {
+		return o.([]int64)
 	}
+	var o []int64
 	n := s.NumFields()
 	fs := make([]*types.Var, n)
 	for i := 0; i < n; i++ {
@@ -479,9 +501,7 @@ func fieldOffsets(s *types.Struct) []int64 {
 		}
 	}
 	o = sizes.Offsetsof(fs)
-	offMu.Lock()
-	offCache[s] = o
-	offMu.Unlock()
+	offCache.Store(s, o)
 	return o
 }
 
@@ -512,7 +532,7 @@ func (st *State) storeAt(b *Block, off int64, t types.Type, v Value) {
 		case u.Info()&types.IsBoolean != 0:
 			st.setCell(b, off, 1, v)
 		default:
-			st.setCell(b, off, sizes.Sizeof(t), v)
+			st.setCell(b, off, sizeof(t), v)
 		}
 	case *types.Pointer:
 		st.setCell(b, off, 8, v)
